@@ -349,6 +349,8 @@ def run_live_exec(case):
     MID = "1.101"
     HC = lambda sel: 1.5 if sel == 303 else 0      # selection 303 is a handicap line
     Clock.now = real_datetime.datetime(2024, 1, 1, 12, 0, 0)
+    from flumine import config as _fcfg
+    _fcfg.async_place_orders = bool(case.get("async_config"))      # set for every case (the process runs several)
     resets = {}
     orig_reset = RunnerContext.reset
     def counting_reset(self, trade_id):
@@ -575,6 +577,9 @@ def run_live_exec(case):
                     bets.append(nb); changed.add(nb["id"])
                     bet = nb["id"]
                     pl["betId"] = bet; pl["orderStatus"] = "EXECUTABLE"; pl["sizeMatched"] = 0.0; pl["averagePriceMatched"] = 0.0
+                    if pkg.async_:
+                        # an async replaceOrders is answered PENDING without the new bet id (the bet exists at the exchange and shows up in the stream)
+                        del pl["betId"]; pl["orderStatus"] = "PENDING"; bet = None
                 else:
                     pl["errorCode"] = "ERROR_IN_ORDER"
                 reps.append({"status": "SUCCESS" if cs == ps == "SUCCESS" else "FAILURE", "cancelInstructionReport": c, "placeInstructionReport": pl})
@@ -726,10 +731,12 @@ def run_live_exec(case):
                     facts = []
                     reqs = step[1] if step[0] == "txn" else [step]
                     asyn = any(r[0] == "place" and r[7] for r in reqs)
+                    if case.get("async_config"):
+                        asyn = True       # config.async_place_orders = True and the transaction left to take its default from the configuration
                     n0 = len(W["packages"])
                     def run():
                         rs = []
-                        with market.transaction(async_place_orders=asyn) as t:
+                        with market.transaction(async_place_orders=None if case.get("async_config") else asyn) as t:
                             for r in reqs:
                                 fn = do_request(r, facts)
                                 rs.append(guarded(lambda: fn(t)))
